@@ -286,6 +286,19 @@ class StreamGen:
         self.put(bytes([OP['Prop1'], OP['Instantiate'], 2, 0, 1]))      # |- P -> (Q -> P)
         v = rng.choice([x, x, y, rng.choice(k.evars)])
         self.put(bytes([OP['Generalization'], v]))
+        if not self.dead and rng.random() < 0.4 and len(self.m.memory) < 240 and self.m.stack and self.m.stack[-1][0] == 'T':
+            # two-step resolution of the pending substitution: the metavariable under it is first renamed to one that carries a
+            # constraint (in the right or in the wrong sort, for x or for y), then replaced by a term that mentions x
+            self.put(bytes([OP['Save'], OP['Pop']]))
+            i = len(self.m.memory) - 1
+            self.put_pattern(rng.choice([T.mv(4, sf=(x,)), T.mv(4, ef=(x,)), T.mv(4, ef=(y,)), T.mv(4), T.mv(4, pos=(x,)), T.mv(4, ef=(y,), sf=(x,))]))
+            self.put(bytes([OP['Load'], i, OP['Instantiate'], 1, 3]))
+            if not self.dead and self.m.stack and self.m.stack[-1][0] == 'T':
+                self.put(bytes([OP['Save'], OP['Pop']]))
+                j = len(self.m.memory) - 1
+                self.put_pattern(rng.choice([T.evar(x), T.evar(y), T.app(T.evar(x), T.sym(0)), T.ex(x, T.evar(x)), T.svar(x)]))
+                self.put(bytes([OP['Load'], j, OP['Instantiate'], 1, 4]))
+            return
         if not self.dead and rng.random() < 0.6 and len(self.m.memory) < 250 and self.m.stack and self.m.stack[-1][0] == 'T':
             self.put(bytes([OP['Save']]))
 
